@@ -5,6 +5,7 @@ import (
 
 	"verifharness/drv"
 	"verifharness/gen"
+	"verifharness/san"
 )
 
 func init() { drv.Register("C05", monC05) }
@@ -28,8 +29,8 @@ func monC05(c *drv.Ctx) {
 	if c.Flavour == "poison" {
 		maxLen = int(c.Pick(2, 3))
 	}
-	// configurations per history: default writer ok sink; default writer failing at 1st / 2nd write; bytes writer x 4 initial classes
-	const nCfg = 7
+	// configurations per history: default writer ok sink; default writer failing at 1st / 2nd write; bytes writer x 5 initial classes
+	const nCfg = 8
 	cfg := func(cs *drv.Case, k int) writerOpts {
 		switch k {
 		case 0:
@@ -80,7 +81,7 @@ func monC05(c *drv.Ctx) {
 		switch r.Intn(4) {
 		case 0:
 			o.bytesWriter = true
-			o.initClass = r.Intn(4)
+			o.initClass = r.Intn(5)
 			o.initLen = []int{0, 1, 7, 100, 4095, 4096, 4097, 9000}[r.Intn(8)]
 		case 1:
 			nf := 0
@@ -151,6 +152,27 @@ func monC05(c *drv.Ctx) {
 		runWriterHistory(cs, ops, o)
 		cs.Count(true, "acc", total, piece, bw)
 		cs.C.Obs("histories accumulating more than 1 MiB between flushes", 1)
+	})
+
+	// one writer used for a very long time: more flush cycles than any 16-bit counter holds
+	c.Stage("many-flush-cycles", 1, true, func(cs *drv.Case) {
+		if san.PoolShim {
+			return // the shim quarantines every freed buffer and re-scans the quarantine at every flush: quadratic in the harness
+		}
+		n := 66000
+		ops := make([]wOp, 0, 2*n+4)
+		for i := 0; i < n; i++ {
+			ops = append(ops, wOp{Kind: wMalloc, N: 1 + i%3}, wOp{Kind: wFlush})
+		}
+		ops = append(ops, wOp{Kind: wMalloc, N: 5000, Lazy: true}, wOp{Kind: wWriteBinary, N: 9}, wOp{Kind: wFlush})
+		o := writerOpts{}
+		if cs.Idx == 1 {
+			o = writerOpts{bytesWriter: true, initClass: 2, initLen: 3}
+		}
+		cs.Desc = M{"flush_cycles": n, "bytes_writer": o.bytesWriter}
+		runWriterHistory(cs, ops, o)
+		cs.Count(true, "manyflush", cs.Idx)
+		cs.C.Obs("histories with more than 65536 flush cycles", 1)
 	})
 
 	// sink failing at every k for histories with many flushes
